@@ -7,6 +7,7 @@ UNITS = {
     'finality': {'template': 'units/finality/unit.rs', 'serves': ['C08'], 'min_verified': 30},
     'merkle': {'template': 'units/merkle/unit.rs', 'serves': ['C15'], 'min_verified': 45},
     'validated': {'template': 'units/validated/unit.rs', 'serves': ['C09'], 'min_verified': 75},
+    'shred_auth': {'template': 'units/shred_auth/unit.rs', 'serves': ['C12'], 'min_verified': 22},
     'slot_state': {'template': 'units/slot_state/unit.rs', 'serves': ['C03', 'C04', 'C06'], 'min_verified': 88},
 }
 
@@ -25,6 +26,10 @@ _CERT = [
 ]
 
 KANI = {
+    'C12': [
+        {'name': 'kani_slice_commitment_injective', 'kind': 'complete', 'timeout': 300,
+         'target': 'src/shredder.rs SliceCommitment::new: equal commitment bytes imply equal (slot, slice index, is_last, slice root); full domain, loop-free'},
+    ],
     'C09': _CERT,
     'C03': _CERT[:2],
     'C15': [
